@@ -213,6 +213,27 @@ def resolve_try(u, e, depth=0):
                  (tuple(resolve_try(u, y, depth + 1) if isinstance(y, tuple) else y for y in x) if isinstance(x, tuple) else x) for x in e)
 
 
+def inline_conversion_rejection(u, src, raw=None):
+    """the checked-conversion idiom written at the call site itself: `T::try_from(x).map_err(|_| V)?` rejects with V iff x > T::MAX
+    (unsigned source): [(variant, predicate, taken-token)] or None"""
+    r = src
+    if try_from_parts(r) and raw is not None:
+        # the `?` site reports the conversion itself as its source: the error mapping is in the raw operand
+        for y in sym.walk(raw):
+            if isinstance(y, tuple) and y and y[0] == "call" and y[1].split("::")[-1] == "map_err" and len(y[2]) == 2 and y[2][0] == src:
+                r = y
+                break
+    if not (isinstance(r, tuple) and r and r[0] == "call" and r[1].split("::")[-1] == "map_err" and len(r[2]) == 2 and r[2][1][0] == "agg" and str(r[2][1][1]).startswith("closure ")):
+        return None
+    tf = try_from_parts(r[2][0])
+    cn = [k for k in u.bodies if mir.norm(k) == mir.norm(str(r[2][1][1])[len("closure "):])]
+    if tf and len(cn) == 1 and tf[2].startswith("u"):
+        cv = sym.expr_local(u.bodies[cn[0]], 0)
+        if cv[0] == "agg":
+            return [(str(cv[1]).split("::")[-1], ("bin", "Gt", tf[0], ("const", INT_MAX[tf[1]], tf[2])), ("ne", ["0"]))]
+    return None
+
+
 def helper_rejections(u, call):
     """for a call of a local Result-returning helper: [(error variant, predicate expression in the caller's terms, taken-token)] for
     every way the helper itself rejects - explicit guarded `return Err(V)` exits and the checked-conversion idiom
